@@ -44,6 +44,16 @@ func Reach(start Point, target Point, cut *Cut) (bool, []*ssa.BasicBlock) {
 		b    *ssa.BasicBlock
 		prev *node
 	}
+	if start.B == nil || target.B == nil {
+		return false, nil
+	}
+	// pseudo edge: a return that passes on the results of a tail call is cut when the cut says that
+	// the call's success establishes the condition (the return is then not a way around it)
+	if cut != nil && cut.Edges[Edge{target.B, -1}] && target.Idx == len(target.B.Instrs)-1 {
+		if _, isRet := target.B.Instrs[target.Idx].(*ssa.Return); isRet {
+			return false, nil
+		}
+	}
 	// A point (B, i) is reached from entering B at position p0 iff no barrier lies in [p0, i).
 	fb := cut.firstBarrier(start.B, start.Idx)
 	if target.B == start.B && target.Idx >= start.Idx && fb >= target.Idx {
